@@ -40,6 +40,9 @@ SpellingEv(t) ==
   IF ~(ParseTextB(t.bytes).ok /\ Norm(ParseTextB(t.bytes).op) = Norm(op)) THEN "OOD spec-reader-disagrees-with-grammar" ELSE
   IF t.exc # "" THEN "REJECT Raised" ELSE
   IF t.code # t.c THEN "REJECT ParseSpelling" ELSE
+  \* the operation just read is equal to, hashes as and prints as the same operation built from the matrix / packed integer
+  IF ~(t.eq /\ t.hasheq) THEN "REJECT ReadEqualHash" ELSE
+  IF t.printed # ToText(op) THEN "REJECT ReadPrintsIdentically" ELSE
   "ACCEPT"
 
 (* any text (from CIF files, or composed freely): judged by the specification's reader alone *)
@@ -49,6 +52,8 @@ TextEv(t) ==
   IF ~Encodable(pt.op) THEN "OOD rotation-entry-out-of-range" ELSE
   IF t.exc # "" THEN "REJECT Raised:text" ELSE
   IF t.code # Enc(pt.op) THEN "REJECT ParseText" ELSE
+  IF ~(t.eq /\ t.hasheq) THEN "REJECT ReadEqualHash:text" ELSE
+  IF t.printed # ToText(Norm(pt.op)) THEN "REJECT ReadPrintsIdentically:text" ELSE
   "ACCEPT"
 
 (* noise ids: 0 none; otherwise +-1e-12 / +-1e-17 on the component pattern; at most 1e-9 in all *)
